@@ -1,8 +1,9 @@
 """Registry: property id -> check function(res, tier, seed, replay)."""
-import p_mcb, p_comp, p_vec, p_approx
+import p_mcb, p_comp, p_vec, p_approx, p_tbb
 REGISTRY = {}
 LEVEL = {}
 REGISTRY.update(p_mcb.REGISTRY)
 REGISTRY.update(p_comp.REGISTRY)
 REGISTRY.update(p_vec.REGISTRY)
 REGISTRY.update(p_approx.REGISTRY)
+REGISTRY.update(p_tbb.REGISTRY)
